@@ -898,6 +898,8 @@ func (s *Service) onRelay(ctx context.Context, p p2p.Peer, stream p2p.Stream) (e
 					s.logger.Tracef("route: onRelay the path has %d jump", len(req.Paths))
 				} else {
 					_, skips := generatePathItems(req.Paths)
+					// the originator is on the path too, although not in Paths
+					skips = append(skips, boson.NewAddress(req.Src))
 					next, err = s.GetNextHopRandomOrFind(ctx, target, skips...)
 					if err != nil {
 						s.logger.Debugf("route: onRelay target %s nextHop not found", target)
@@ -1105,6 +1107,8 @@ func (s *Service) onRelayConnChain(ctx context.Context, p p2p.Peer, stream p2p.S
 		s.logger.Tracef("route: onRelayConnChain the path has %d jump", len(req.Paths))
 	} else {
 		_, skips := generatePathItems(req.Paths)
+		// the originator is on the path too, although not in Paths
+		skips = append(skips, boson.NewAddress(req.Src))
 		next, err = s.GetNextHopRandomOrFind(ctx, target, skips...)
 		if err != nil {
 			return err
